@@ -4,6 +4,8 @@ import re
 import hir as H
 import mir as M
 import rulelib as L
+import symrules as SR
+import sym
 import spec_tables as S
 from c08 import format_calls
 import charpred as CP
@@ -88,31 +90,49 @@ def run(F, R, tier):
     }
     for name, (field, pred, delim, err) in spec.items():
         fn = REL + "::" + name
-        h = F.hir(fn)
-        if not r2.anchor(h, fn):
+        if not r2.anchor(F.hir(fn), fn):
             continue
-        env = H.Env(h)
-        assigns = [n for n in H.walk(H.root(h)) if n.get("k") == "assign"]
-        ok = False
-        for a_ in assigns:
-            lo = H.origins(a_["l"], env)
-            if lo == {("param", "self", field)}:
-                ok = H.try_inner(a_["r"]) is not None
-                preds = {x.get("res", {}).get("def", "").rsplit("::", 1)[-1] for x in H.walk(a_["r"]) if x.get("k") == "path" and x.get("res", {}).get("dk") == "Fn"}
-                fns = {f.rsplit("::", 1)[-1] for f in H.called_fns(a_["r"])}
-                errs = {H.variant_name(x.get("res", {})) for x in H.walk(a_["r"]) if x.get("k") == "path" and x.get("res", {}).get("dk") in ("Ctor", "Variant")}
-                r2.site("%s: self.%s = validated(value)?  predicates %s" % (name, field, sorted(preds & {"is_char_path", "is_char_query", "is_char_fragment"})), a_["sp"])
-                r2.require(ok, (fn, "assign-after-try"), "%s assigns the field without the validation error being propagated first" % name)
-                r2.require("is_valid_url_segment" in fns and pred in preds, (fn, "char-class"), "%s does not validate with is_valid_url_segment(_, %s)" % (name, pred))
-                r2.require(err in errs, (fn, "error"), "%s does not report %s" % (name, err))
-                lits = [x for x in H.literals(a_["r"]) if isinstance(x, str)]
-                if delim is None:
-                    r2.require("starts_with" in fns and "/" in lits, (fn, "leading-slash"), "set_path does not require a leading '/'")
-                else:
-                    r2.require("strip_prefix" in fns and delim in lits, (fn, "delimiter"), "%s does not normalise the leading '%s'" % (name, delim))
-                    tpl = [t for t, _, _ in format_calls({"value": a_["r"]}, env)]
-                    r2.require(any(t and t[0] == ("lit", delim) and t[1:] == [("arg",)] for t in tpl), (fn, "stored-form"), "%s does not store the value as '%s' + validated segment" % (name, delim))
-        r2.require(ok, (fn, "write"), "%s: assignment to self.%s not found" % (name, field))
+        tab = SR.Table(F, fn, opaque=r"is_valid_url_segment$|alloc::fmt::format$", rule=r2)
+        VAL = ("payload", SR.param("value"), "Some", 0)
+        n_set = 0
+        for q in tab.paths:
+            ws = SR.writes(q, field)
+            if not SR.is_success(q.ret):
+                r2.require(not ws, (fn, "assign-after-try"), "%s assigns the field although it returns an error: a rejected call changes the value" % name)
+                r2.require(SR.err_name(q.ret) == err, (fn, "error"), "%s does not report %s (got %s)" % (name, err, SR.err_name(q.ret)))
+                continue
+            if not r2.require(len(ws) == 1, (fn, "write"), "%s: an accepting path does not assign self.%s exactly once" % (name, field)):
+                continue
+            stored = ws[0].args[1]
+            if sym.term(stored) == ("ctor", "None"):
+                # clearing: only for an absent or empty value
+                r2.require(SR.variant(q, SR.param("value")) == "None" or q.val.get(("nonempty", VAL)) is False, (fn, "clear"), "%s clears the component for a non-empty value" % name)
+                continue
+            n_set += 1
+            # the stored segment was validated with this component's character class …
+            seg_ok = None
+            for e in q.calls(r"is_valid_url_segment$"):
+                if q.succeeded(e) is True and sym.term(e.args[1]) == ("fn", MOD + "::" + pred):
+                    seg_ok = e.args[0]
+            if not r2.require(seg_ok is not None, (fn, "char-class"), "%s stores a value without is_valid_url_segment(_, %s) having succeeded" % (name, pred)):
+                continue
+            st = sym.term(seg_ok)
+            r2.require(SR.derives(stored, st), (fn, "same-value"), "%s validates %s but stores %s" % (name, sym.fmt(st), sym.fmt(sym.term(stored))[:120]))
+            r2.require(q.val.get(("nonempty", st)) is True or q.val.get(("nonempty", VAL)) is True and st == VAL, (fn, "non-empty"), "%s stores an empty segment" % name)
+            if delim is None:
+                okd = any(a[0] == "truth" and c is True and a[1][:1] == ("call",) and a[1][1].endswith("starts_with") and a[1][2] == (VAL, ("lit", "/")) for (a, c, _, _) in q.decisions)
+                r2.require(okd, (fn, "leading-slash"), "set_path does not require a leading '/'")
+                r2.require(sym.term(stored) == ("ctor", "Some", VAL), (fn, "stored-form"), "set_path does not store the validated value itself: %r" % (stored,))
+            else:
+                # validated segment = value without its optional leading delimiter; stored form = delimiter + segment
+                stripped = ("payload", ("call", "str::strip_prefix", (VAL, ("lit", delim))), "Some", 0)
+                sv = q.variant.get(("call", "str::strip_prefix", (VAL, ("lit", delim))))
+                r2.require((sv == "Some" and st == stripped) or (sv == "None" and st == VAL), (fn, "delimiter"), "%s does not normalise the leading '%s' (validated %s)" % (name, delim, sym.fmt(st)))
+                tmpl = ("list", ("lit", 1), ("lit", ord(delim)), ("lit", 192), ("lit", 0))
+                fm = [x for x in sym.subterms(sym.term(stored)) if isinstance(x, tuple) and x[:1] == ("call",) and x[1].endswith("Arguments::new")]
+                r2.require(any(len(x[2]) == 2 and x[2][0] == tmpl and SR.derives(x[2][1], st) for x in fm), (fn, "stored-form"), "%s does not store the value as '%s' + validated segment" % (name, delim))
+        r2.site("%s: self.%s = validated(value)?  predicate %s; %d storing path(s), rejected calls leave the field untouched" % (name, field, pred, n_set))
+        r2.require(n_set > 0 or not tab.paths, (fn, "write"), "%s: no path stores a value" % name)
     # who writes the three fields
     for field in ("path", "query", "fragment"):
         for (p, bi, kind, d) in F.field_writes(REL, field):
